@@ -7,6 +7,7 @@ import CM.Driver.BagOps
 import CM.Model.Factory
 import CM.Model.Merge
 import CM.Model.CheckIds
+import CM.Model.FilterBag
 open Lean
 namespace CM
 
@@ -64,7 +65,13 @@ def opFactory (j : Json) : P Json := do
     pure (match checkIdsBag prev with
       | .ok b => Json.mkObj [("ok", bagToJsonSem b), ("wf", .bool b.wfB)]
       | .error e => bagErrToJson e)
+  let fs ← (← jArr (jFieldD j "filters" (.arr #[]))).mapM fun c => do
+    let prev ← bagOfJson (← jField c "prev")
+    let keys ← (← jField c "keys").getStr?
+    pure (match filterConnect prev (.function "$FilterEdge" [] []) keys with
+      | .ok b => Json.mkObj [("ok", bagToJsonSem b), ("wf", .bool b.wfB)]
+      | .error e => bagErrToJson e)
   pure (Json.mkObj [("outs", .arr outs.toArray), ("caches", .arr cs.toArray), ("merges", .arr ms.toArray),
-    ("checkids", .arr ks.toArray)])
+    ("checkids", .arr ks.toArray), ("filters", .arr fs.toArray)])
 
 end CM
